@@ -147,3 +147,43 @@ Example three_d_partial :
   map (fun w => (idx w, idy w, idz w)) (all_produced g (filter_of g (FRange 3 9))) =
     [(0, 1, 0); (1, 1, 0); (2, 1, 0); (0, 0, 1); (1, 0, 1); (2, 0, 1)].
 Proof. unfold good_geom. vm_compute. repeat split; auto; discriminate. Qed.
+
+(** ** Sequences of unified multi-GPU launches
+
+    For ANY list of launches (each with its own geometry and the CU counts of
+    the GPUs of its unified device; extents and the work-group count below
+    2^32, at least one CU) that are in flight together, and for every launch i
+    of the list: what the GPUs announce and produce for launch i is
+    [run_launch] of launch i alone — the WGFilter closures of a launch are a
+    function of that launch's own work-group count and CU counts, whatever
+    else was launched before or after it — and these requests partition
+    launch i's grid: every GPU produces exactly the NumWG it announces, the
+    announced numbers add up to the number of work-groups of the grid, and
+    every work-group of the grid is produced exactly once over all GPUs.
+    (The check ties this to driver.go by enqueuing 2-3 launches with different
+    grids on two queues and evaluating the captured closures interleaved.) *)
+From VGrid Require Import Launches LaunchesProofs.
+
+Theorem launches_partition_their_own_grids : forall ls i l,
+  nth_error ls i = Some l -> launch_ok l ->
+  exists rs, nth_error (run_launches ls) i = Some (run_launch l) /\ run_launch l = Some rs /\
+    Forall (fun r => snd (fst r) = Z.of_nat (length (snd r))) rs /\
+    sum_counts rs = nx (fst l) * ny (fst l) * nz (fst l) /\
+    Permutation.Permutation (all_of rs) (all_wgs (fst l)).
+Proof. exact run_launches_partition. Qed.
+Print Assumptions launches_partition_their_own_grids.
+
+Example two_overlapping_launches :
+  let cus := [4; 4; 4] in
+  let a := mkGeom 640 1 1 16 1 1 in
+  let b := mkGeom 56 12 1 8 4 1 in
+  launch_ok (a, cus) /\ launch_ok (b, cus) /\
+  map (option_map (map (fun r : nat * Z * list wg => (fst (fst r), snd (fst r)))))
+      (run_launches [(a, cus); (b, cus)]) =
+    [Some [(0%nat, 16); (1%nat, 16); (2%nat, 8)]; Some [(0%nat, 8); (1%nat, 8); (2%nat, 5)]].
+Proof.
+  assert (Hc : Forall (fun c => 0 <= c) [4; 4; 4]) by (repeat constructor; lia).
+  split; [|split]; [| |vm_compute; reflexivity];
+    (unfold launch_ok, good_geom; cbn [gx gy gz sx sy sz];
+     repeat match goal with |- _ /\ _ => split end; try lia; try exact Hc; vm_compute; congruence).
+Qed.
